@@ -567,11 +567,15 @@ func (rm *room) mutatePL(before map[ref.Key]string, actor user, honest bool) map
 		}
 		return sim.Pick(t, []int{int(my) + 1, int(my) + 50, int(my), 100, 0, -1, 9000, 9007199254740991})
 	}
-	if rm.priv && !honest && t.Chance(200) {
+	if !honest && ((rm.priv && t.Chance(200)) || (rm.extraCreators && t.Chance(400))) {
 		// name a creator, at the level creators implicitly have, at an
-		// ordinary level, or at the sender's own
+		// ordinary level, or at the sender's own; or give everybody that level
 		cr := rm.nodes[rm.order[0]].ev
-		users[string(cr.SenderID())] = sim.Pick(t, []int{9007199254740991, 100, int(my)})
+		if t.Chance(250) {
+			out["users_default"] = 9007199254740991
+		} else {
+			users[string(cr.SenderID())] = sim.Pick(t, []int{9007199254740991, 100, int(my)})
+		}
 		rm.r.Probe("pl_names_a_creator")
 	}
 	nm := t.Range(1, 3)
